@@ -24,17 +24,18 @@ const cborPath = "github.com/fxamacker/cbor/v2"
 // Prog is one loaded variant of the repository (the real tree, or the real
 // tree with one file replaced through an overlay by a mutator).
 type Prog struct {
-	Repo    string
-	Fset    *token.FileSet
-	Pkg     *packages.Package
-	SSA     *ssa.Program
-	SPkg    *ssa.Package
-	Funcs   []*ssa.Function // all source functions of the package incl. closures, sorted
-	Files   []string
-	byName  map[string]*ssa.Function
-	terms   *termEngine
-	effects *effectEngine
-	facts   map[*ssa.Function]*factResult
+	Repo         string
+	Fset         *token.FileSet
+	Pkg          *packages.Package
+	SSA          *ssa.Program
+	SPkg         *ssa.Package
+	Funcs        []*ssa.Function // all source functions of the package incl. closures, sorted
+	Files        []string
+	byName       map[string]*ssa.Function
+	terms        *termEngine
+	effects      *effectEngine
+	facts        map[*ssa.Function]*factResult
+	constGlobals map[string]*Term
 }
 
 // undecided is panicked by engines/rules when the checker cannot do its job
